@@ -53,7 +53,7 @@ def anchors():
 
 def gen_cases(tier, seed):
     r = gen.rng(seed, "c15")
-    sources = [("n77", f) for f in N77] + [("synthetic", i) for i in range(4)]
+    sources = [("n77", f) for f in N77] + [("synthetic", i) for i in range(6)]
     reps = 2 if tier == "quick" else 40
     for src in sources:
         for entry in CHEAP:
@@ -68,6 +68,10 @@ def gen_cases(tier, seed):
         yield {"kind": "alphas", "seed": r.randrange(1 << 30), "sample": N77[i % 5], "reference": N77[(i + 2) % 5]}
     for i in range(24 if tier == "quick" else 300):
         yield {"kind": "isosteric", "seed": r.randrange(1 << 30)}
+    for entry, src, force in (("area_BET", 4, [["absolute", "bar"], ["molar", "mmol"]]), ("t_plot", 4, [["absolute", "bar"], ["mass", "mg"]]), ("dr_plot", 4, [["absolute", "kPa"], ["molar", "mol"]]),
+                              ("initial_henry_slope", 5, [["absolute", "MPa"], ["mass", "mg"]]), ("initial_henry_slope", 5, [["absolute", "bar"], ["molar", "cm3(STP)"]]),
+                              ("initial_henry_slope", 5, [["absolute", "Pa"], ["mass", "g"]])):
+        yield {"kind": "twin", "entry": entry, "source": ["synthetic", src], "seed": r.randrange(1 << 30), "force": force}
     if tier == "thorough":
         # every pressure representation x every non-fractional loading representation, for the cheap methods
         for entry in ("area_BET", "t_plot", "dr_plot"):
@@ -103,7 +107,7 @@ def _load(name, folder="characterisation"):
 def _synthetic(i):
     """Type II/IV-like isotherms at temperatures where p0 is far from 1 bar (so that bar and relative pressure differ)."""
     import pygaps
-    ads, T = [("nitrogen", 70.0), ("nitrogen", 90.0), ("argon", 100.0), ("verif-c15-vapour", 300.0)][i]
+    ads, T = [("nitrogen", 70.0), ("nitrogen", 90.0), ("argon", 100.0), ("verif-c15-vapour", 300.0), ("nitrogen", 77.355), ("nitrogen", 77.355)][i]
     if i == 3:
         # a user-defined vapour without thermodynamic backend: everything comes from the properties the user supplied
         # (saturation pressure in Pa, densities in g/cm3, surface tension in mN/m, as documented)
@@ -111,6 +115,14 @@ def _synthetic(i):
                          gas_density=0.00205, enthalpy_liquefaction=26.4, molecular_diameter=0.45, polarizability=0.001, magnetic_susceptibility=1.0e-7, surface_density=5.0e18)
     p = numpy.concatenate([numpy.exp(numpy.linspace(math.log(1e-6), math.log(0.05), 25)), numpy.linspace(0.06, 0.97, 45)])
     n = 4.0 * 80 * p / ((1 - 0.85 * p) * (1 - 0.85 * p + 80 * p)) + 2.0 * p / (0.002 + p) + 6 / (1 + numpy.exp(-(p - 0.55) / 0.03))
+    if i == 4:
+        # recorded directly in percent of the saturation pressure
+        return pygaps.PointIsotherm(pressure=list(p * 100), loading=list(n), branch="ads", material="verif-c15-4", adsorbate=ads, temperature=T, pressure_mode="relative%",
+                                    **{k: v for k, v in gen.DEFAULT_UNITS.items() if not k.startswith("pressure")})
+    if i == 5:
+        # a high-affinity (type I) sample: Henry constants of 1e6 mmol/g/bar and more
+        p = numpy.concatenate([numpy.exp(numpy.linspace(math.log(1e-13), math.log(1e-7), 30)), p])
+        n = 8.0 * 2.0e8 * p / (1 + 2.0e8 * p) + 0.5 * p
     return pygaps.PointIsotherm(pressure=list(p), loading=list(n), branch="ads", material="verif-c15-%d" % i, adsorbate=ads, temperature=T, pressure_mode="relative", pressure_unit=None,
                                 **{k: v for k, v in gen.DEFAULT_UNITS.items() if not k.startswith("pressure")})
 
